@@ -5,7 +5,7 @@ import numpy as np
 
 from .. import graphgen as G
 from .. import values as V
-from .common import Outcome, cinfer, quiet, time_limit, try_build, Timeout
+from .common import Outcome, cinfer, cinfer_frame, quiet, time_limit, try_build, Timeout
 
 ID = "C12"
 COQ_IMPORT = "Corr.CNodes"
@@ -88,6 +88,17 @@ def gen(rng, tier):
             rec = G.wild_graph(rng, 6)
         hist = [rng.choice(ops) for _ in range(rng.choice([0, 1, 1, 2, 3, 6]))]
         cases.append({"kind": "hist", "recipe": V.enc_recipe(rec), "hist": hist})
+    # graphs created by from_list (the auto-inserted Input/Output must be mirrored as well)
+    from . import c11
+    for _ in range(N // 6):
+        L = rng.choice([1, 2, 3, 5])
+        seq = [rng.choice(["Affine", "Linear", "Scale", "LIF", "IF", "CubaLIF", "Flatten", "Conv1d", "SumPool2d"]) for _ in range(L)]
+        if rng.random() < 0.3:
+            seq[0] = "Input"
+        if rng.random() < 0.3 and L > 1:
+            seq[-1] = "Output"
+        cases.append({"kind": "fromlist", "recipes": [V.enc_recipe(c11.leaf(rng, c)) for c in seq],
+                      "hist": [rng.choice(ops) for _ in range(rng.choice([0, 1, 2]))]})
     return cases
 
 
@@ -141,16 +152,26 @@ def subgraphs(g):
 
 def run(c):
     import nir
-    r = V.dec_recipe(c["recipe"])
-    b = try_build(r)
-    sig = repr((c["recipe"], c["hist"]))
-    if b[0] != "ok":
-        return Outcome(None, None, False, sig)
-    g = b[1]
+    if c["kind"] == "fromlist":
+        sig = repr((c["recipes"], c["hist"]))
+        try:
+            with quiet():
+                g = nir.NIRGraph.from_list(*[V.build(V.dec_recipe(x)) for x in c["recipes"]])
+        except BaseException:  # noqa: BLE001
+            return Outcome(None, None, False, sig)
+        r, b = None, ("ok", g)
+    else:
+        r = V.dec_recipe(c["recipe"])
+        b = try_build(r)
+        sig = repr((c["recipe"], c["hist"]))
+        if b[0] != "ok":
+            return Outcome(None, None, False, sig)
+        g = b[1]
     fail = scan(g)
     if fail:
         fail = "after construction: " + fail
     raised_last = False
+    raised_any = False
     done = []
     with time_limit(30):
         for op in c["hist"]:
@@ -172,6 +193,7 @@ def run(c):
                             raise
                         except BaseException:  # noqa: BLE001
                             raised_last = True
+                            raised_any = True
                     elif op == "subinfer":
                         for sg in subgraphs(g):
                             try:
@@ -189,10 +211,12 @@ def run(c):
             if f:
                 fail = f"after {done}: {f}"
     coq = None
-    if c["hist"] and all(o == "infer" for o in c["hist"]) and len(c["hist"]) <= 2 and done == c["hist"]:
-        coq = cinfer(r, ("ok", g, raised_last, None), twice=len(c["hist"]) == 2)
+    if r is None:
+        pass
+    elif c["hist"] and all(o == "infer" for o in c["hist"]) and len(c["hist"]) <= 2 and done == c["hist"]:
+        coq = cinfer_frame(r, ("ok", g, raised_last, None), twice=len(c["hist"]) == 2, raised_any=raised_any)
     elif not c["hist"]:
         from .common import cbuild
         coq = cbuild(r, b)
-    nontriv = "infer" in c["hist"] or sum(1 for n in r["nodes"].values() if n["k"] in ("Input",)) >= 2
+    nontriv = "infer" in c["hist"] or r is None or sum(1 for n in r["nodes"].values() if n["k"] in ("Input",)) >= 2
     return Outcome(coq, fail, nontriv, sig)
